@@ -26,10 +26,10 @@ theorem hasFlonum_leaves : (t : ATy) → (lo hi off : Nat) → hasFlonum t lo hi
   | .arr e n, lo, hi, off => by
     simp only [hasFlonum, leaves]
     induction n with
-    | zero => simp [allBelow, leavesArr]
+    | zero => simp [allBelow, concatBelow]
     | succ n ih =>
       rw [allBelow_succ, ih]
-      simp only [leavesArr, List.all_append]
+      simp only [concatBelow, List.all_append]
       rw [hasFlonum_leaves e lo hi (off + e.size * n)]
   | .int _ _ _, lo, hi, off => by simp [hasFlonum, leaves, leafOk, ATy.isFlonum]
   | .ldbl, lo, hi, off => by simp [hasFlonum, leaves, leafOk, ATy.isFlonum]
@@ -42,5 +42,492 @@ theorem hasFlonumMs_leaves : (ms : Members) → (lo hi off : Nat) →
     simp only [hasFlonumMs, leavesMs, List.all_append]
     rw [hasFlonum_leaves t lo hi (off + o), hasFlonumMs_leaves r lo hi off]
 end
+
+
+def isScalar : ATy → Bool
+  | .agg .. => false
+  | .arr .. => false
+  | _ => true
+
+mutual
+theorem leaves_scalar : (t : ATy) → (off : Nat) → ∀ x ∈ leaves t off, isScalar x.2 = true
+  | .agg _ _ _ ms, off => by simp only [leaves]; exact leavesMs_scalar ms off
+  | .arr e n, off => by
+    simp only [leaves]
+    induction n with
+    | zero => simp [concatBelow]
+    | succ n ih =>
+      intro x hx
+      simp only [concatBelow, List.mem_append] at hx
+      cases hx with
+      | inl h => exact ih x h
+      | inr h => exact leaves_scalar e _ x h
+  | .int _ _ _, off => by simp [leaves, isScalar]
+  | .ldbl, off => by simp [leaves, isScalar]
+  | .flt, off => by simp [leaves, isScalar]
+  | .dbl, off => by simp [leaves, isScalar]
+theorem leavesMs_scalar : (ms : Members) → (off : Nat) → ∀ x ∈ leavesMs ms off, isScalar x.2 = true
+  | .nil, off => by simp [leavesMs]
+  | .cons o t r, off => by
+    intro x hx
+    simp only [leavesMs, List.mem_append] at hx
+    cases hx with
+    | inl h => exact leaves_scalar t _ x h
+    | inr h => exact leavesMs_scalar r off x h
+end
+
+/-! ### the merge over the scalars of a small aggregate -/
+
+/-- class of an eightbyte from two facts about the scalars that start in it: is there one (`a`), are all of them float/double (`f`) -/
+def cls3 (a f : Bool) : Class := if a then (if f then .sse else .integer) else .noClass
+
+def leafClass (t : ATy) : Class := if t.isFlonum then .sse else .integer
+
+theorem merge_cls3 (a f fl : Bool) (h : a = false → f = true) :
+    merge (cls3 a f) (if fl then Class.sse else Class.integer) = cls3 true (f && fl) := by
+  cases a <;> cases f <;> cases fl <;> simp_all [cls3, merge]
+
+theorem getD_set {α : Type} (l : List α) (i j : Nat) (a d : α) :
+    (l.set i a).getD j d = if i = j ∧ i < l.length then a else l.getD j d := by
+  simp only [List.getD_eq_getElem?_getD, List.getElem?_set]
+  by_cases h : i = j
+  · subst h
+    by_cases h2 : i < l.length
+    · simp [h2]
+    · have : l[i]? = none := by simp; omega
+      simp [h2, this]
+  · simp [h]
+
+/-- a scalar that is not long double contributes its one class to the eightbyte it starts in -/
+theorem scalarClasses_of (t : ATy) (hs : isScalar t = true) (hl : isLdbl t = false) : scalarClasses t = [leafClass t] := by
+  cases t <;> simp_all [isScalar, isLdbl, scalarClasses, leafClass, ATy.isFlonum]
+
+def foldClasses (L : List (Nat × ATy)) (acc : List Class) : List Class :=
+  L.foldl (fun acc (ot : Nat × ATy) => mergeAt acc (ot.1 / 8) (scalarClasses ot.2)) acc
+
+theorem foldClasses_length (L : List (Nat × ATy)) : ∀ acc, (∀ x ∈ L, isScalar x.2 = true ∧ isLdbl x.2 = false) →
+    (foldClasses L acc).length = acc.length := by
+  induction L with
+  | nil => intro acc _; rfl
+  | cons x xs ih =>
+    intro acc h
+    have hx := h x (List.mem_cons_self)
+    simp only [foldClasses, List.foldl_cons]
+    rw [scalarClasses_of x.2 hx.1 hx.2]
+    simp only [mergeAt]
+    have := ih (acc.set (x.1 / 8) (merge (acc.getD (x.1 / 8) .noClass) (leafClass x.2)))
+      (fun y hy => h y (List.mem_cons_of_mem _ hy))
+    simpa [foldClasses] using this
+
+/-- the invariant of the merge loop: eightbyte `k` holds `cls3 (some scalar starts in it) (all that do are float/double)` -/
+theorem foldClasses_getD (L : List (Nat × ATy)) : ∀ (acc : List Class) (A F : Nat → Bool),
+    (∀ x ∈ L, isScalar x.2 = true ∧ isLdbl x.2 = false) →
+    (∀ k, A k = false → F k = true) →
+    (∀ k, k < acc.length → acc.getD k .noClass = cls3 (A k) (F k)) →
+    ∀ k, k < acc.length →
+      (foldClasses L acc).getD k .noClass =
+        cls3 (A k || L.any (fun ot => ot.1 / 8 == k)) (F k && L.all (fun ot => ot.1 / 8 != k || ot.2.isFlonum)) := by
+  induction L with
+  | nil => intro acc A F _ _ hacc k hk; simpa [foldClasses] using hacc k hk
+  | cons x xs ih =>
+    intro acc A F h hAF hacc k hk
+    have hx := h x (List.mem_cons_self)
+    simp only [foldClasses, List.foldl_cons]
+    rw [scalarClasses_of x.2 hx.1 hx.2]
+    simp only [mergeAt]
+    -- the accumulator after this scalar
+    let acc' := acc.set (x.1 / 8) (merge (acc.getD (x.1 / 8) .noClass) (leafClass x.2))
+    let A' := fun j => A j || (x.1 / 8 == j)
+    let F' := fun j => F j && (x.1 / 8 != j || x.2.isFlonum)
+    have hlen : acc'.length = acc.length := by simp [acc']
+    have hAF' : ∀ j, A' j = false → F' j = true := by
+      intro j hj
+      simp only [A', Bool.or_eq_false_iff] at hj
+      have : ¬ x.1 / 8 = j := by simpa using hj.2
+      simp [F', hAF j hj.1, this]
+    have hacc' : ∀ j, j < acc'.length → acc'.getD j .noClass = cls3 (A' j) (F' j) := by
+      intro j hj
+      rw [hlen] at hj
+      simp only [acc', getD_set]
+      by_cases e : x.1 / 8 = j
+      · subst e
+        simp only [hj, and_self, if_true, A', F', beq_self_eq_true, Bool.or_true, bne_self_eq_false, Bool.false_or]
+        rw [hacc _ hj]
+        exact merge_cls3 _ _ _ (hAF _)
+      · have e' : (x.1 / 8 == j) = false := by simpa using e
+        have e'' : (x.1 / 8 != j) = true := by simp [bne, e']
+        simp only [e, false_and, if_false, A', F', e', e'', Bool.or_false, Bool.true_or, Bool.and_true]
+        exact hacc j hj
+    have := ih acc' A' F' (fun y hy => h y (List.mem_cons_of_mem _ hy)) hAF' hacc' k (by rw [hlen]; exact hk)
+    simp only [foldClasses] at this
+    rw [this]
+    simp only [A', F', List.any_cons, List.all_cons, Bool.or_assoc, Bool.and_assoc]
+
+
+theorem list_len1 {α : Type} (l : List α) (d : α) (h : l.length = 1) : l = [l.getD 0 d] := by
+  match l, h with
+  | [a], _ => rfl
+
+theorem list_len2 {α : Type} (l : List α) (d : α) (h : l.length = 2) : l = [l.getD 0 d, l.getD 1 d] := by
+  match l, h with
+  | [a, b], _ => rfl
+
+/-- class of eightbyte `k` as chibicc sees it -/
+def flonumClass (ty : ATy) (k : Nat) : Class := if hasFlonum ty (8 * k) (8 * k + 8) 0 then .sse else .integer
+
+theorem all_flonum_eq (L : List (Nat × ATy)) (k : Nat) :
+    L.all (fun ot => ot.1 / 8 != k || ot.2.isFlonum) = L.all (leafOk (8 * k) (8 * k + 8)) := by
+  apply List.all_congr rfl
+  intro x
+  simp only [leafOk]
+  by_cases h : x.1 / 8 = k
+  · have h1 : ¬ (x.1 < 8 * k) := by omega
+    have h2 : ¬ (8 * k + 8 ≤ x.1) := by omega
+    simp [h, h1, h2]
+  · have : x.1 < 8 * k ∨ 8 * k + 8 ≤ x.1 := by omega
+    have h' : (x.1 / 8 != k) = true := by simp [bne, h]
+    rcases this with h1 | h2
+    · simp [h', h1]
+    · simp [h', h2]
+
+theorem any_eq_not_all (L : List (Nat × ATy)) (k : Nat) :
+    L.any (fun ot => ot.1 / 8 == k) = !(L.all (fun ot => ot.1 / 8 != k)) := by
+  induction L with
+  | nil => rfl
+  | cons x xs ih => simp only [List.any_cons, List.all_cons, ih, Bool.not_and, bne, Bool.not_not]
+
+/-- the merged classes of a small aggregate inside the supported region -/
+theorem merged_getD (ty : ATy) (n k : Nat) (hk : k < n)
+    (hld : (leaves ty 0).any (fun ot => isLdbl ot.2) = false)
+    (hne : eightbyteEmpty ty k = false) :
+    (foldClasses (leaves ty 0) (List.replicate n Class.noClass)).getD k .noClass = flonumClass ty k := by
+  have hsc : ∀ x ∈ leaves ty 0, isScalar x.2 = true ∧ isLdbl x.2 = false := by
+    intro x hx
+    refine ⟨leaves_scalar ty 0 x hx, ?_⟩
+    rw [List.any_eq_false] at hld
+    simpa using hld x hx
+  have := foldClasses_getD (leaves ty 0) (List.replicate n Class.noClass) (fun _ => false) (fun _ => true) hsc
+    (fun _ _ => rfl) (by intro j hj; simp [cls3, List.getD_eq_getElem?_getD]; simp at hj; simp [hj]) k (by simpa using hk)
+  rw [this]
+  simp only [Bool.false_or, Bool.true_and]
+  rw [any_eq_not_all]
+  simp only [eightbyteEmpty] at hne
+  rw [hne, all_flonum_eq, ← hasFlonum_leaves]
+  simp [cls3, flonumClass]
+
+
+theorem tyOk_agg {u : Bool} {sz al : Nat} {ms : Members} (h : tyOk (.agg u sz al ms) = true) (h16 : sz ≤ 16) :
+    0 < sz ∧ hasUnaligned (.agg u sz al ms) = false ∧
+    (leaves (.agg u sz al ms) 0).any (fun ot => isLdbl ot.2) = false ∧
+    eightbyteEmpty (.agg u sz al ms) 0 = false ∧ (sz > 8 → eightbyteEmpty (.agg u sz al ms) 1 = false) := by
+  have hsz : (ATy.agg u sz al ms).size = sz := rfl
+  have d16 : decide ((ATy.agg u sz al ms).size ≤ 16) = true := decide_eq_true (by rw [hsz]; exact h16)
+  simp only [tyOk, Bool.and_eq_true, Bool.not_eq_true'] at h
+  obtain ⟨⟨h1, h2⟩, h3⟩ := h
+  simp only [ldblInSmallAgg, ATy.isAgg, d16, Bool.true_and] at h1
+  simp only [unalignedOrEmpty, ATy.isAgg, d16, Bool.true_and, Bool.or_eq_false_iff] at h2
+  have hpos : 0 < sz := by
+    have := of_decide_eq_false h2.1
+    rw [hsz] at this
+    omega
+  have dpos : decide (0 < (ATy.agg u sz al ms).size) = true := decide_eq_true (by rw [hsz]; exact hpos)
+  simp only [paddingEightbyte, ATy.isAgg, d16, dpos, Bool.true_and, Bool.or_eq_false_iff] at h3
+  refine ⟨hpos, h2.2, h1, h3.1, ?_⟩
+  intro h8
+  have d8 : decide ((ATy.agg u sz al ms).size > 8) = true := decide_eq_true (by rw [hsz]; exact h8)
+  have := h3.2
+  simpa only [d8, Bool.true_and] using this
+
+theorem postMerger_small1 (c : Class) (sz : Nat) (h16 : sz ≤ 16) (hc : c = .sse ∨ c = .integer) : postMerger [c] sz = [c] := by
+  have : ¬ sz > 16 := by omega
+  rcases hc with rfl | rfl <;> simp [postMerger, x87upOk, this]
+
+theorem postMerger_small2 (c d : Class) (sz : Nat) (h16 : sz ≤ 16) (hc : c = .sse ∨ c = .integer) (hd : d = .sse ∨ d = .integer) :
+    postMerger [c, d] sz = [c, d] := by
+  have : ¬ sz > 16 := by omega
+  rcases hc with rfl | rfl <;> rcases hd with rfl | rfl <;> simp [postMerger, x87upOk, this]
+
+theorem flonumClass_cases (ty : ATy) (k : Nat) : flonumClass ty k = .sse ∨ flonumClass ty k = .integer := by
+  simp only [flonumClass]; split <;> simp
+
+/-- **classification of a small aggregate**: inside the supported region the psABI classes are what `has_flonum` says -/
+theorem classify_small {u : Bool} {sz al : Nat} {ms : Members} (hok : tyOk (.agg u sz al ms) = true) (h16 : sz ≤ 16) :
+    classify (.agg u sz al ms) =
+      if sz > 8 then [flonumClass (.agg u sz al ms) 0, flonumClass (.agg u sz al ms) 1]
+      else [flonumClass (.agg u sz al ms) 0] := by
+  obtain ⟨hpos, hu, hl, he0, he1⟩ := tyOk_agg hok h16
+  have h64 : ¬ sz > 64 := by omega
+  simp only [classify, ATy.size, h64, hu, false_or, Bool.false_eq_true, if_false]
+  change postMerger (foldClasses (leaves (.agg u sz al ms) 0) (List.replicate (eightbytes sz) Class.noClass)) sz = _
+  have hsc : ∀ x ∈ leaves (.agg u sz al ms) 0, isScalar x.2 = true ∧ isLdbl x.2 = false := by
+    intro x hx
+    refine ⟨leaves_scalar _ 0 x hx, ?_⟩
+    rw [List.any_eq_false] at hl
+    simpa using hl x hx
+  have hlen := foldClasses_length (leaves (.agg u sz al ms) 0) (List.replicate (eightbytes sz) Class.noClass) hsc
+  simp only [List.length_replicate] at hlen
+  by_cases h8 : sz > 8
+  · have hn : eightbytes sz = 2 := by unfold eightbytes; omega
+    rw [hn] at hlen ⊢
+    rw [list_len2 _ Class.noClass hlen, merged_getD _ 2 0 (by omega) hl he0, merged_getD _ 2 1 (by omega) hl (he1 h8)]
+    simp only [h8, if_true]
+    exact postMerger_small2 _ _ _ h16 (flonumClass_cases _ _) (flonumClass_cases _ _)
+  · have hn : eightbytes sz = 1 := by unfold eightbytes; omega
+    rw [hn] at hlen ⊢
+    rw [list_len1 _ Class.noClass hlen, merged_getD _ 1 0 (by omega) hl he0]
+    simp only [h8, if_false]
+    exact postMerger_small1 _ _ h16 (flonumClass_cases _ _)
+
+
+/-! ### aggregates of more than 16 bytes are MEMORY -/
+
+theorem merge_ne_sseup (a b : Class) (ha : a ≠ .sseup) (hb : b ≠ .sseup) : merge a b ≠ .sseup := by
+  cases a <;> cases b <;> simp_all [merge]
+
+theorem scalarClasses_ne_sseup (t : ATy) : ∀ c ∈ scalarClasses t, c ≠ Class.sseup := by
+  cases t <;> simp [scalarClasses]
+
+theorem mergeAt_inv (cs : List Class) : ∀ (acc : List Class) (k : Nat),
+    (∀ c ∈ acc, c ≠ Class.sseup) → (∀ c ∈ cs, c ≠ Class.sseup) →
+    (mergeAt acc k cs).length = acc.length ∧ ∀ c ∈ mergeAt acc k cs, c ≠ Class.sseup := by
+  induction cs with
+  | nil => intro acc k h _; exact ⟨rfl, h⟩
+  | cons c cs ih =>
+    intro acc k hacc hcs
+    simp only [mergeAt]
+    have hm : merge (acc.getD k .noClass) c ≠ .sseup := by
+      apply merge_ne_sseup
+      · by_cases hk : k < acc.length
+        · have : acc.getD k .noClass ∈ acc := by
+            rw [List.getD_eq_getElem?_getD, List.getElem?_eq_getElem hk]; simp
+          exact hacc _ this
+        · have : acc.getD k .noClass = .noClass := by
+            rw [List.getD_eq_getElem?_getD, List.getElem?_eq_none (by omega)]; rfl
+          rw [this]; simp
+      · exact hcs c List.mem_cons_self
+    have hset : ∀ x ∈ acc.set k (merge (acc.getD k .noClass) c), x ≠ Class.sseup := by
+      intro x hx
+      rcases List.mem_or_eq_of_mem_set hx with h | h
+      · exact hacc x h
+      · rw [h]; exact hm
+    have := ih (acc.set k (merge (acc.getD k .noClass) c)) (k + 1) hset (fun x hx => hcs x (List.mem_cons_of_mem _ hx))
+    exact ⟨by rw [this.1]; simp, this.2⟩
+
+theorem foldClasses_inv (L : List (Nat × ATy)) : ∀ (acc : List Class), (∀ c ∈ acc, c ≠ Class.sseup) →
+    (foldClasses L acc).length = acc.length ∧ ∀ c ∈ foldClasses L acc, c ≠ Class.sseup := by
+  induction L with
+  | nil => intro acc h; exact ⟨rfl, h⟩
+  | cons x xs ih =>
+    intro acc h
+    simp only [foldClasses, List.foldl_cons]
+    have h1 := mergeAt_inv (scalarClasses x.2) acc (x.1 / 8) h (scalarClasses_ne_sseup x.2)
+    have h2 := ih (mergeAt acc (x.1 / 8) (scalarClasses x.2)) h1.2
+    simp only [foldClasses] at h2
+    exact ⟨by rw [h2.1, h1.1], h2.2⟩
+
+theorem classify_big {u : Bool} {sz al : Nat} {ms : Members} (h : sz > 16) : classify (.agg u sz al ms) = [.memory] := by
+  have hsz : (ATy.agg u sz al ms).size = sz := rfl
+  simp only [classify]
+  by_cases hc : (ATy.agg u sz al ms).size > 64 ∨ hasUnaligned (ATy.agg u sz al ms) = true
+  · rw [if_pos hc]
+  · rw [if_neg hc, hsz]
+    change postMerger (foldClasses (leaves (.agg u sz al ms) 0) (List.replicate (eightbytes sz) Class.noClass)) sz = _
+    obtain ⟨hlen, hns⟩ := foldClasses_inv (leaves (.agg u sz al ms) 0) (List.replicate (eightbytes sz) Class.noClass)
+      (by intro c hc; rw [List.mem_replicate] at hc; rw [hc.2]; simp)
+    generalize foldClasses (leaves (.agg u sz al ms) 0) (List.replicate (eightbytes sz) Class.noClass) = cs at *
+    simp only [List.length_replicate] at hlen
+    have hn : 3 ≤ cs.length := by rw [hlen]; unfold eightbytes; omega
+    have hdrop : (cs.drop 1).all (· == Class.sseup) = false := by
+      match cs, hn, hns with
+      | a :: b :: rest, _, hns =>
+        have : b ≠ Class.sseup := hns b (by simp)
+        simp [this]
+    simp only [postMerger, h, hdrop, true_and]
+    split
+    · rfl
+    · split
+      · rfl
+      · simp
+
+
+/-! ### one argument: chibicc's pass and the psABI's -/
+
+theorem flonumClass0 (ty : ATy) : flonumClass ty 0 = if hasFlonum1 ty then Class.sse else Class.integer := by
+  rfl
+
+theorem flonumClass1 (ty : ATy) : flonumClass ty 1 = if hasFlonum2 ty then Class.sse else Class.integer := by
+  rfl
+
+theorem abi_step (t : ATy) (gp fp off : Nat) (hsz : aggSizeOk t = true) (hok : tyOk t = true)
+    (hpad : ∀ o, (assignStep (min gp GP_MAX, min fp FP_MAX, off) t).2 = .stack o → o = off) :
+    assignStep (min gp GP_MAX, min fp FP_MAX, off) t =
+      ((min (refStep (gp, fp, off) t).1.1 GP_MAX, min (refStep (gp, fp, off) t).1.2.1 FP_MAX, (refStep (gp, fp, off) t).1.2.2),
+       (refStep (gp, fp, off) t).2) := by
+  cases t with
+  | int sz u b =>
+    simp only [aggSizeOk, Bool.and_eq_true, decide_eq_true_eq] at hsz
+    simp only [assignStep, classify, scalarClasses, inMemory, countClass, refStep, GP_MAX_eq, FP_MAX_eq, ATy.size, ATy.align,
+      regPieces, roundUp] at hpad ⊢
+    simp at hpad ⊢
+    have hm : max 8 sz = 8 := by omega
+    rw [hm] at hpad ⊢
+    by_cases h : gp < 6
+    · have c : min gp 6 ≤ 5 ∧ min fp 8 ≤ 8 := by omega
+      rw [if_pos c]
+      simp [h]; omega
+    · have c : ¬ (min gp 6 ≤ 5 ∧ min fp 8 ≤ 8) := by omega
+      rw [if_neg c] at hpad ⊢
+      have := hpad _ rfl
+      simp [h, this]; omega
+  | flt =>
+    simp only [assignStep, classify, scalarClasses, inMemory, countClass, refStep, GP_MAX_eq, FP_MAX_eq, ATy.size, ATy.align,
+      regPieces, roundUp] at hpad ⊢
+    simp at hpad ⊢
+    by_cases h : fp < 8
+    · have c : min gp 6 ≤ 6 ∧ min fp 8 ≤ 7 := by omega
+      rw [if_pos c]
+      simp [h]; omega
+    · have c : ¬ (min gp 6 ≤ 6 ∧ min fp 8 ≤ 7) := by omega
+      rw [if_neg c] at hpad ⊢
+      have := hpad _ rfl
+      simp [h, this]; omega
+  | dbl =>
+    simp only [assignStep, classify, scalarClasses, inMemory, countClass, refStep, GP_MAX_eq, FP_MAX_eq, ATy.size, ATy.align,
+      regPieces, roundUp] at hpad ⊢
+    simp at hpad ⊢
+    by_cases h : fp < 8
+    · have c : min gp 6 ≤ 6 ∧ min fp 8 ≤ 7 := by omega
+      rw [if_pos c]
+      simp [h]; omega
+    · have c : ¬ (min gp 6 ≤ 6 ∧ min fp 8 ≤ 7) := by omega
+      rw [if_neg c] at hpad ⊢
+      have := hpad _ rfl
+      simp [h, this]; omega
+  | ldbl =>
+    simp only [assignStep, classify, scalarClasses, inMemory, countClass, refStep, GP_MAX_eq, FP_MAX_eq, ATy.size, ATy.align,
+      regPieces, roundUp] at hpad ⊢
+    simp at hpad ⊢
+    simp only [hpad]
+  | arr e n => simp [tyOk] at hok
+  | agg u sz al ms =>
+    by_cases h16 : sz ≤ 16
+    · -- at most 16 bytes: classes from has_flonum
+      have hcl := classify_small hok h16
+      obtain ⟨hpos, _, _⟩ := aggSizeOk_agg hsz h16
+      rw [flonumClass0, flonumClass1] at hcl
+      simp only [assignStep, hcl, refStep, regsOf, structInRegs, b2n, pushSlots, ATy.size, ATy.align, GP_MAX_eq, FP_MAX_eq,
+        h16, true_and, alignTo, roundUp] at hpad ⊢
+      by_cases e1 : hasFlonum1 (.agg u sz al ms) = true <;> by_cases e2 : hasFlonum2 (.agg u sz al ms) = true <;>
+        by_cases h8 : sz > 8 <;>
+        simp [e1, e2, h8, inMemory, countClass, regPieces] at hpad ⊢ <;>
+        (split
+         next c =>
+           split
+           next d => simp; omega
+           next d => exfalso; omega
+         next c =>
+           rw [if_neg c] at hpad
+           have hp := hpad _ rfl
+           rw [hp]
+           split
+           next d => exfalso; omega
+           next d => simp; omega)
+    · have h16' : sz > 16 := by omega
+      have hcl := classify_big (u := u) (al := al) (ms := ms) h16'
+      simp only [assignStep, hcl, refStep, pushSlots, ATy.size, ATy.align, h16, false_and, if_false, inMemory, alignTo, roundUp]
+        at hpad ⊢
+      simp at hpad ⊢
+      simp only [hpad]
+      exact ⟨by omega, trivial⟩
+
+
+/-! ### the whole argument list -/
+
+theorem assignLoop_cons (st : Nat × Nat × Nat) (t : ATy) (ts : List ATy) :
+    assignLoop st (t :: ts) = ((assignLoop (assignStep st t).1 ts).1, (assignStep st t).2 :: (assignLoop (assignStep st t).1 ts).2) := rfl
+
+theorem stackPadLoop_cons (st : Nat × Nat × Nat) (t : ATy) (ts : List ATy) :
+    stackPadLoop st (t :: ts) =
+      ((match (assignStep st t).2 with
+        | .stack off => decide (off ≠ st.2.2)
+        | _ => false) || stackPadLoop (assignStep st t).1 ts) := rfl
+
+/-- **induction on the argument list with the (gp, fp, stack) counters as invariant**: outside the known-finding regions
+    chibicc's pass and the psABI's pass agree argument by argument; the psABI's register counters are chibicc's, saturated -/
+theorem abi_loop (ts : List ATy) : ∀ (gp fp off : Nat), ts.all aggSizeOk = true → ts.all tyOk = true →
+    stackPadLoop (min gp GP_MAX, min fp FP_MAX, off) ts = false →
+    assignLoop (min gp GP_MAX, min fp FP_MAX, off) ts =
+      ((min (refLoop (gp, fp, off) ts).1.1 GP_MAX, min (refLoop (gp, fp, off) ts).1.2.1 FP_MAX, (refLoop (gp, fp, off) ts).1.2.2),
+       (refLoop (gp, fp, off) ts).2) := by
+  induction ts with
+  | nil => intro gp fp off _ _ _; rfl
+  | cons t ts ih =>
+    intro gp fp off hsz hok hpad
+    simp only [List.all_cons, Bool.and_eq_true] at hsz hok
+    rw [stackPadLoop_cons, Bool.or_eq_false_iff] at hpad
+    have hp : ∀ o, (assignStep (min gp GP_MAX, min fp FP_MAX, off) t).2 = .stack o → o = off := by
+      intro o ho
+      have h1 := hpad.1
+      rw [ho] at h1
+      simpa using h1
+    have hstep := abi_step t gp fp off hsz.1 hok.1 hp
+    rw [assignLoop_cons, refLoop_cons, hstep]
+    have hpad2 := hpad.2
+    rw [hstep] at hpad2
+    have hr : (refStep (gp, fp, off) t).1 =
+        ((refStep (gp, fp, off) t).1.1, (refStep (gp, fp, off) t).1.2.1, (refStep (gp, fp, off) t).1.2.2) := rfl
+    rw [hr]
+    rw [ih _ _ _ hsz.2 hok.2 hpad2]
+
+
+/-! ### return values and the hidden pointer -/
+
+theorem retInMemory_eq (r : Option ATy) (h : retOk r = true) : retInMemory r = retLarge r := by
+  cases r with
+  | none => rfl
+  | some t =>
+    simp only [retOk] at h
+    cases t with
+    | int sz u b => simp [retInMemory, retLarge, classify, scalarClasses, ATy.isAgg]
+    | flt => simp [retInMemory, retLarge, classify, scalarClasses, ATy.isAgg]
+    | dbl => simp [retInMemory, retLarge, classify, scalarClasses, ATy.isAgg]
+    | ldbl => simp [retInMemory, retLarge, classify, scalarClasses, ATy.isAgg]
+    | arr e n => simp [tyOk] at h
+    | agg u sz al ms =>
+      by_cases h16 : sz ≤ 16
+      · have hcl := classify_small h h16
+        rw [flonumClass0, flonumClass1] at hcl
+        have : ¬ sz > 16 := by omega
+        simp only [retInMemory, retLarge, hcl, ATy.isAgg, ATy.size, Bool.true_and]
+        by_cases h8 : sz > 8 <;> by_cases e1 : hasFlonum1 (.agg u sz al ms) = true <;>
+          by_cases e2 : hasFlonum2 (.agg u sz al ms) = true <;> simp [h8, e1, e2, this]
+      · have h16' : sz > 16 := by omega
+        simp [retInMemory, retLarge, classify_big (u := u) (al := al) (ms := ms) h16', ATy.isAgg, ATy.size, h16']
+
+theorem ret_abi (r : Option ATy) (h : retOk r = true) (hsz : ∀ t, r = some t → aggSizeOk t = true) :
+    retCaller r = .ok (Spec.PsABI.ret r) ∧ retCallee r = .ok (Spec.PsABI.ret r) := by
+  cases r with
+  | none => exact ⟨rfl, rfl⟩
+  | some t =>
+    simp only [retOk] at h
+    cases t with
+    | int sz u b => simp [retCaller, retCallee, Spec.PsABI.ret, classify, scalarClasses, retPieces]
+    | flt => simp [retCaller, retCallee, Spec.PsABI.ret, classify, scalarClasses, retPieces]
+    | dbl => simp [retCaller, retCallee, Spec.PsABI.ret, classify, scalarClasses, retPieces]
+    | ldbl => simp [retCaller, retCallee, Spec.PsABI.ret, classify, scalarClasses, retPieces]
+    | arr e n => simp [tyOk] at h
+    | agg u sz al ms =>
+      by_cases h16 : sz ≤ 16
+      · have hcl := classify_small h h16
+        rw [flonumClass0, flonumClass1] at hcl
+        obtain ⟨hpos, hf1, hf2⟩ := aggSizeOk_agg (hsz _ rfl) h16
+        simp only [retCaller, retCallee, Spec.PsABI.ret, hcl, retPiecesCaller, retPiecesCallee, ATy.size, h16, if_true]
+        simp only [hasFlonum1, hasFlonum2] at hf1 hf2 ⊢
+        by_cases h8 : sz > 8 <;> by_cases e1 : hasFlonum (.agg u sz al ms) 0 8 0 = true <;>
+          by_cases e2 : hasFlonum (.agg u sz al ms) 8 16 0 = true <;>
+          simp [h8, e1, e2, retPieces, bind, Except.bind, pure, Except.pure, Except.map, throw, throwThe, MonadExceptOf.throw] at hf1 hf2 ⊢ <;>
+          (try simp [hf1, hf2])
+      · have h16' : sz > 16 := by omega
+        simp [retCaller, retCallee, Spec.PsABI.ret, classify_big (u := u) (al := al) (ms := ms) h16', ATy.size, h16]
 
 end ChibiVerif.CallConv
